@@ -605,6 +605,18 @@ func CheckC18(p *Pkg, e *Env, r *res.Result) {
 			ra.URL.Path, rb.URL.Path = path, path
 			oa, ob := serveOutcome(ia, ra), serveOutcome(ib, rb)
 			rep := map[string]any{"request.txt": op.Method + " " + target + "\n" + fmt.Sprint(hdr) + "\n" + string(body)}
+			// a path value spelled like a constant segment makes another operation run: the
+			// failure is classified by the operation that ran, and the document was not
+			// drawn for its body schema
+			if oa.Dispatch && oa.Template != "" && oa.Template != op.Template {
+				if ran, ranB := p.OpFor(op.Method, oa.Template), q.OpFor(op.Method, oa.Template); ran != nil && ranB != nil {
+					op, opB = ran, ranB
+					if docClass != "" && docClass != ":malformed-json" {
+						docClass = ":document-for-another-operation"
+					}
+					r.Label("request:ran-another-operation")
+				}
+			}
 			switch {
 			case oa.Panic != "" || ob.Panic != "":
 				fail("panic", "panic on one side: "+firstLine(oa.Panic+ob.Panic), rep)
